@@ -27,6 +27,9 @@ func parseResid(run *Run) *Resid {
 	if f != nil {
 		for _, d := range f.Decls {
 			if fd, ok := d.(*ast.FuncDecl); ok {
+				if fd.Body != nil {
+					elimTemps(fd.Body)
+				}
 				rs.Funcs = append(rs.Funcs, fd)
 			}
 		}
@@ -147,4 +150,149 @@ func (c *Ctx) acceptedResids(plugin string) []*Resid {
 		}
 	}
 	return out
+}
+
+// elimTemps puts the emitted code into the form the residual rules are stated in: a local that is defined by `v := E`
+// and used exactly once, in the very next simple statement (an assignment, return, expression statement or send; not inside
+// a function literal, not as an assignment target, not under &), is replaced by E there and its definition dropped —
+// `b := f(elem); out[i] = b` is `out[i] = f(elem)`. Only the syntax tree the shape rules look at is changed; parsing,
+// free identifiers and type-checking use the text as emitted.
+func elimTemps(root ast.Node) {
+	var fix func(list []ast.Stmt) []ast.Stmt
+	uses := func(n ast.Node, name string) (count int, bad bool) {
+		var stack []ast.Node
+		ast.Inspect(n, func(m ast.Node) bool {
+			if m == nil {
+				stack = stack[:len(stack)-1]
+				return true
+			}
+			if id, ok := m.(*ast.Ident); ok && id.Name == name {
+				par := ast.Node(nil)
+				if len(stack) > 0 {
+					par = stack[len(stack)-1]
+				}
+				switch p := par.(type) {
+				case *ast.SelectorExpr:
+					if p.Sel == id {
+						stack = append(stack, m)
+						return true // a field or method of that name
+					}
+				case *ast.KeyValueExpr:
+					if p.Key == ast.Expr(id) {
+						stack = append(stack, m)
+						return true
+					}
+				case *ast.UnaryExpr:
+					if p.Op == token.AND {
+						bad = true
+					}
+				case *ast.AssignStmt:
+					for _, l := range p.Lhs {
+						if l == ast.Expr(id) {
+							bad = true
+						}
+					}
+				case *ast.IncDecStmt:
+					bad = true
+				}
+				for _, s := range stack {
+					if _, isLit := s.(*ast.FuncLit); isLit {
+						bad = true
+					}
+				}
+				count++
+			}
+			stack = append(stack, m)
+			return true
+		})
+		return
+	}
+	replace := func(n ast.Node, name string, e ast.Expr) {
+		ast.Inspect(n, func(m ast.Node) bool {
+			switch p := m.(type) {
+			case *ast.AssignStmt:
+				for i := range p.Rhs {
+					if id, ok := p.Rhs[i].(*ast.Ident); ok && id.Name == name {
+						p.Rhs[i] = e
+					}
+				}
+				for i := range p.Lhs {
+					if ix, ok := p.Lhs[i].(*ast.IndexExpr); ok {
+						if id, ok := ix.Index.(*ast.Ident); ok && id.Name == name {
+							ix.Index = e
+						}
+					}
+				}
+			case *ast.ReturnStmt:
+				for i := range p.Results {
+					if id, ok := p.Results[i].(*ast.Ident); ok && id.Name == name {
+						p.Results[i] = e
+					}
+				}
+			case *ast.SendStmt:
+				if id, ok := p.Value.(*ast.Ident); ok && id.Name == name {
+					p.Value = e
+				}
+			case *ast.CallExpr:
+				for i := range p.Args {
+					if id, ok := p.Args[i].(*ast.Ident); ok && id.Name == name {
+						p.Args[i] = e
+					}
+				}
+			case *ast.BinaryExpr:
+				if id, ok := p.X.(*ast.Ident); ok && id.Name == name {
+					p.X = &ast.ParenExpr{X: e}
+				}
+				if id, ok := p.Y.(*ast.Ident); ok && id.Name == name {
+					p.Y = &ast.ParenExpr{X: e}
+				}
+			}
+			return true
+		})
+	}
+	fix = func(list []ast.Stmt) []ast.Stmt {
+		var out []ast.Stmt
+		for i := 0; i < len(list); i++ {
+			st := list[i]
+			as, ok := st.(*ast.AssignStmt)
+			if ok && as.Tok == token.DEFINE && len(as.Lhs) == 1 && len(as.Rhs) == 1 && i+1 < len(list) {
+				if id, ok := as.Lhs[0].(*ast.Ident); ok && id.Name != "_" {
+					if _, isLit := as.Rhs[0].(*ast.FuncLit); !isLit {
+						next := list[i+1]
+						simple := false
+						switch next.(type) {
+						case *ast.AssignStmt, *ast.ReturnStmt, *ast.ExprStmt, *ast.SendStmt:
+							simple = true
+						}
+						n1, bad := uses(next, id.Name)
+						later := 0
+						for _, r := range list[i+2:] {
+							c, _ := uses(r, id.Name)
+							later += c
+						}
+						if simple && n1 == 1 && !bad && later == 0 {
+							before, _ := uses(next, id.Name)
+							replace(next, id.Name, as.Rhs[0])
+							if after, _ := uses(next, id.Name); after < before {
+								continue // the definition is dropped
+							}
+						}
+					}
+				}
+			}
+			out = append(out, st)
+		}
+		return out
+	}
+	ast.Inspect(root, func(n ast.Node) bool {
+		switch x := n.(type) {
+		case *ast.BlockStmt:
+			x.List = fix(x.List)
+		case *ast.CaseClause:
+			x.Body = fix(x.Body)
+		case *ast.CommClause:
+			x.Body = fix(x.Body)
+		}
+		return true
+	})
 }
